@@ -9,8 +9,9 @@ Two exhaustive legs (DESIGN.md C16):
     path is replayed against the real loops, comparing the loss history, the number of
     epochs/steps and the returned parameter version with the model's terminal state.
  3. TLA+ with ties: models/EarlyStopTies.tla and models/VarFitTies.tla let losses REPEAT and are
-    non-deterministic exactly where the statement is (count patience from the first or the last
-    epoch attaining the minimum; any epoch attaining it may supply the best parameters). TLC
+    non-deterministic exactly where the statement is (patience counted from the first or from the
+    last epoch attaining the minimum - one reading per run, applied at every epoch of it; any epoch
+    attaining the minimum may supply the best parameters). TLC
     verifies the tie-aware invariants; the real loops are run on EVERY loss word over 1..V of
     every length <= L and the observed behaviour must be one of the model's behaviours for that
     word (trace inclusion). One value map sends the largest rank to +inf.
@@ -50,7 +51,7 @@ def _L(tier):
 
 
 def _ties(tier):
-    return {"quick": (4, 3), "thorough": (5, 3)}[tier]  # (L epochs/steps, V distinct values) of the tie models
+    return {"quick": (5, 3), "thorough": (6, 3)}[tier]  # (L epochs/steps, V distinct values) of the tie models
 
 
 def bounds(tier):
@@ -123,14 +124,14 @@ def enumerate_cases(tier, seed):
     # --- TLA leg with ties: acceptance sets per configuration; the words are enumerated in the worker
     lt_, v_ = _ties(tier)
     nodes3, edges3, st3 = run_tlc("EarlyStopTies", {"L": lt_, "V": v_},
-                                  ["AtMostMaxEpochs", "NeverStopsEarly", "NeverRunsOn", "StopsWhenForced", "BestAttainsMin"], "est")
+                                  ["AtMostMaxEpochs", "StopsExactlyWhenDocumented", "BestAttainsMin"], "est")
     groups = {}
     for p in maximal_paths(nodes3, edges3):
         term = nodes3[p[-1]]
         groups.setdefault((term["maxEpochs"], term["patience"]), []).append(
-            {"vals": term["vals"], "stopped": term["stopped"], "version": term["version"], "best": term["best"]})
+            {"vals": term["vals"], "stopped": term["stopped"], "version": term["version"], "best": term["best"], "reading": term["reading"]})
     for (me, pat), paths in sorted(groups.items()):
-        paths.sort(key=lambda d: (d["vals"], d["stopped"], d["best"]))
+        paths.sort(key=lambda d: (d["vals"], d["stopped"], d["best"], d["reading"]))
         for kind in ("data_B1", "data_B2"):
             for vm in (0, 2):
                 cases.append({"id": f"ties|{kind}|maxEpochs={me}|pat={pat}|values={'finite' if vm == 0 else 'top=inf'}", "leg": "ties", "kind": kind,
@@ -321,16 +322,17 @@ def _run_ties(case, env, val):
                 elif not ok:
                     bad = "t"
                 else:
-                    taken.update((tuple(c["vals"]), c["stopped"], c["best"]) for c in ok)
+                    taken.update((tuple(c["vals"]), c["stopped"], c["best"], c.get("reading")) for c in ok)
             if len(set(script[:n])) < n:
                 nontrivial += 1
             tag = f"ties:len={n},t={obs['t']:g}"
             outcomes[tag] = outcomes.get(tag, 0) + 1
             if bad:
-                allowed = sorted({(len(c["vals"]), c["best"] if rb else c["version"]) for w, cs in accept.items() if list(w) == script[:len(w)] for c in cs})
+                allowed = sorted({(len(c["vals"]), c["best"] if rb else c["version"], {1: "first-min", 2: "last-min"}.get(c.get("reading"), "-"))
+                                  for w, cs in accept.items() if list(w) == script[:len(w)] for c in cs})
                 viols.append({"sig": f"C16|{loop}|ties|rb={int(rb)}|mismatch={bad}",
                               "msg": f"{loop} {extra} losses with ties script={script}: observed history of length {n}, returned version {obs['t'] / B:g}; "
-                                     f"the tie-aware model allows (epochs run, version) in {allowed}",
+                                     f"the tie-aware model allows (epochs run, version, reading of 'since the best loss') in {allowed}",
                               "detail": {"script": script, "observed": obs, "allowed": allowed, **extra}})
     digest = hashlib.sha1(json.dumps(obs_all, sort_keys=True).encode()).hexdigest()
     return {"transitions": runs, "traces": runs, "states": 1 + runs, "nontrivial": nontrivial, "violations": viols, "outcomes": outcomes,
